@@ -177,12 +177,33 @@ def P_C10(ctx, log, lazy=True, **kw):
 
 
 def hyp_C03(ctx, case):
-    """scenario-side hypotheses of the full C03 statement (DESIGN.md C03); returns list of violated hypotheses"""
+    """hypotheses of the full C03 statement (DESIGN.md C03). 'x:' = outside the property's quantifier (monitor not applied);
+    the others name input classes covered by a known finding"""
     bad = []
     slots = collections.Counter((e['a'], e['b'], e['da']) for e in ctx.edges)
-    if any(v > 1 for v in slots.values()): bad.append('unique_slots')
-    if any(e['kind'] == 'w' for e in ctx.edges): bad.append('weak_data_ordered')
-    if any(e['init'] and not e['persistent'] for e in ctx.edges): bad.append('init_only_where_needed')
+    if any(v > 1 for v in slots.values()): bad.append('x:unique_slots')
+    if any(e['kind'] == 'w' for e in ctx.edges): bad.append('weak')                       # F11
+    if any(e['init'] and not e['persistent'] for e in ctx.edges): bad.append('init_on_event_source')   # F17
+    by_attr = collections.defaultdict(list)
+    for e in ctx.edges:
+        if e['persistent']: by_attr[(e['a'], e['sa'])].append(e)
+    for (a, sa), es in by_attr.items():
+        # the cache keeps initial data per (source attribute, -shift), not per connection: another connection from the same
+        # attribute can read it - unless the producer is time-based (has a real output from time 0 on) and that other connection is plain
+        for e1 in es:
+            if not e1['init']: continue
+            for e2 in es:
+                if e2 is e1: continue
+                if not (ctx.types[a] == 'time-based' and e2['kind'] == 'p' and not e2['init']):
+                    if 'shared_init_slot' not in bad: bad.append('shared_init_slot')   # F10
+    # behaviour side
+    for k, b in enumerate(case['beh']):
+        if b.get('type') == 'hybrid':
+            outs = b.get('outputs', {})
+            if any('po' not in v[1] for v in outs.values()): bad.append('x:persistent_incomplete'); break
+    for k, b in enumerate(case['beh']):
+        if any(v[0] is not None for v in b.get('outputs', {}).values()) and any(e['a'] == f'S{k}' for e in ctx.edges):
+            bad.append('nonmonotone'); break                                                 # F14
     return bad
 
 
@@ -272,6 +293,10 @@ def P_C16(ctx, log, **kw):
     for n, l in enumerate(log):
         if l[0] == 'SETDATA':
             _, writer, dest, attr, tok = l
+            if not any(e['asyn'] and e['a'] == dest and e['b'] == writer for e in ctx.edges):
+                if kw.get('outcome_kind') != 'async':
+                    out.append(f'{writer} called set_data towards {dest} without an async_requests connection and was not refused (run ended with {kw.get("outcome_kind")})')
+                break
             pending[dest][(attr, f'{writer}.e')] = tok
         elif l[0] == 'BEGIN':
             sid = l[1]
